@@ -81,6 +81,9 @@ PROPS = {
         "functions": ["weed.row_step", "RefSka::new.collect_record", "SplitKmer::new", "SplitKmer::build", "SplitKmer::roll_fwd", "SplitKmer::update_rc",
                       "SplitKmer::get_curr_kmer", "SplitKmer::get_next_kmer", "SplitKmer::get_middle_pos"],
         "kani": [("weedwrap", None)],
+        "bounded_quick": [{"group": "weedset", "name": "weed_set_is_the_listed_kmers", "bound": "weed lists of <= 3 k-mers with arbitrary u64 values", "timeout": 1200},
+                          {"group": "weedset", "name": "bounded_weed_whole_2x2", "bound": "2 split k-mers x 2 samples, <= 2 weed k-mers, all values symbolic",
+                           "args": ["-Z", "unstable-options", "--cbmc-args", "--unwindset", "memcmp.0:18"], "timeout": 2400}],
         "bounded": [],
     },
     "C14": {
@@ -145,6 +148,9 @@ KANI_GROUPS = {
     "rowfragk": {"fragment_unit": "rowfrag_k", "file": "rowfrag_harness.rs", "complete": False},
     "weedwrap": {"attach": "src/merge_ska_array.rs", "file": "weedwrap_harness.rs", "complete": True, "args": ["-Z", "stubbing"],
                  "attach_also": [("src/ska_ref.rs", "weedhelp_harness.rs", "weedhelp")]},
+    "weedset": {"attach": "src/merge_ska_array.rs", "file": "weedset_harness.rs", "incrate_unit": "weedset_k", "complete": False,
+                "attach_also": [("src/ska_ref.rs", "weedhelp_harness.rs", "weedhelp")]},
+    "mergefrag": {"fragment_unit": "mergefrag_k", "file": "mergefrag_harness.rs", "complete": False},
     "wrappers": {"attach": "src/merge_ska_array.rs", "file": "wrappers_harness.rs", "complete": True, "args": ["-Z", "stubbing"]},
     "bitops": {"attach": "src/ska_dict/bit_encoding.rs", "file": "bitops_harness.rs", "complete": True},
     "nthash": {"attach": "src/ska_dict/nthash.rs", "file": "nthash_harness.rs", "complete": True},
